@@ -203,13 +203,13 @@ def tlc_generate(module, cfg=None, tag="CASE", **kw):
     return res.tagged(tag), res
 
 
-def tlc_validate(module, trace_path, cfg=None, extra_env=None, timeout=1800, heap="4g"):
+def tlc_validate(module, trace_path, cfg=None, extra_env=None, timeout=1800, heap="4g", workdir=None):
     """impl -> spec: validate a recorded trace.  Returns (verdicts, accepted, TlcResult).
     verdicts: list of dicts printed by the trace spec (each has at least `key`)."""
     env = {"TRACE": trace_path}
     if extra_env:
         env.update(extra_env)
-    res = run_tlc(module, cfg=cfg, env_extra=env, workers=1, dfs=True, timeout=timeout, heap=heap)
+    res = run_tlc(module, cfg=cfg, env_extra=env, workers=1, dfs=True, timeout=timeout, heap=heap, workdir=workdir)
     verdicts = res.tagged("VERDICT")
     accepted = (res.rc == 0) and "TRACE-NOT-CONSUMED" not in res.out
     if res.rc != 0 and not any("Postcondition" in l or "postcondition" in l for l in res.out.splitlines()):
@@ -284,6 +284,32 @@ def run_harness(rvh, cases, workdir, name="trace", timeout_ms=10000, max_timeout
     evs = read_ndjson(tpath)
     if len(evs) != n:
         raise ToolError(f"harness produced {len(evs)} events for {n} cases")
+    return tpath, evs
+
+
+def run_harness_par(rvh, cases, workdir, name="trace", timeout_ms=10000, shards=8, max_timeouts=6):
+    """run_harness over contiguous shards of the cases in parallel processes; the events come
+    back in case order (each case is independent: one fresh parser/analysis per case)."""
+    from concurrent.futures import ThreadPoolExecutor
+    n = len(cases)
+    if n < 4 * shards:
+        return run_harness(rvh, cases, workdir, name, timeout_ms, max_timeouts)
+    size = (n + shards - 1) // shards
+    parts = [cases[i:i + size] for i in range(0, n, size)]
+    with ThreadPoolExecutor(max_workers=len(parts)) as ex:
+        futs = [ex.submit(run_harness, rvh, part, workdir, f"{name}.s{k}", timeout_ms, max_timeouts)
+                for k, part in enumerate(parts)]
+        res = [f.result() for f in futs]
+    evs = []
+    for tp, e in res:
+        evs += e
+        for suffix in ("", ".cur"):
+            try:
+                os.remove(tp + suffix)
+            except OSError:
+                pass
+    tpath = os.path.join(workdir, name + ".ndjson")
+    write_ndjson(tpath, evs)
     return tpath, evs
 
 
@@ -374,18 +400,32 @@ class Outcome:
         return rc
 
 
-def validate_chunks(module, events, workdir, name, chunk=8000, **kw):
-    """Validate a long trace in several TLC runs (JVM heap / JSON size); ids must be 1..n."""
-    verdicts = []
-    results = []
+def validate_chunks(module, events, workdir, name, chunk=8000, par=4, **kw):
+    """Validate a long trace in several TLC runs (JVM heap / JSON size); ids must be 1..n.
+    The chunks are independent TLC runs (each restarts the trace machine) and run `par` at a time."""
+    from concurrent.futures import ThreadPoolExecutor
+    jobs = []
     for k in range(0, len(events), chunk):
-        part = events[k:k + chunk]
         path = os.path.join(workdir, f"{name}.{k // chunk}.ndjson")
-        write_ndjson(path, part)
-        v, acc, res = tlc_validate(module, path, **kw)
+        write_ndjson(path, events[k:k + chunk])
+        jobs.append((k // chunk, path))
+
+    def one(job):
+        i, path = job
+        r = tlc_validate(module, path, workdir=os.path.join(WORK, "tlc", f"{module}.{name}.{i}"), **kw)
+        os.remove(path)
+        shutil.rmtree(os.path.join(WORK, "tlc", f"{module}.{name}.{i}"), ignore_errors=True)
+        return r
+
+    if len(jobs) <= 1 or par <= 1:
+        outs = [one(j) for j in jobs]
+    else:
+        with ThreadPoolExecutor(max_workers=par) as ex:
+            outs = list(ex.map(one, jobs))
+    verdicts, results = [], []
+    for (i, _), (v, acc, res) in zip(jobs, outs):
         if not acc:
-            raise ToolError(f"{module}: trace chunk {k // chunk} not consumed")
+            raise ToolError(f"{module}: trace chunk {i} not consumed")
         verdicts += v
         results.append(res)
-        os.remove(path)
     return verdicts, results
